@@ -115,6 +115,7 @@ def main():
     nhist = 6 if args.tier == "quick" else 18
     nops = 10 if args.tier == "quick" else 16
     lines, expect = [], []
+    ms_lines, ms_expect = [], []
     try:
         nextra = 1 if args.tier == "quick" else 4
         for h in range(nhist + nextra):
@@ -353,6 +354,18 @@ def main():
                     if s3.Niter != s.Niter:
                         res.fail(f"second save-load sim={kind}", f"simulation saved a second time in another folder: loaded Niter={s3.Niter}, saved {s.Niter}", ident())
                     else:
+                        # mesh-store model (Model/MeshStore.lean): which mesh of the history each entry reads back as after
+                        # [meshes assigned, Save(A), folder changed, Save(B)], seen through the iterations saved on each mesh
+                        sig = [(int(m_.Nn), int(m_.Ne)) for m_ in meshes]
+                        seen_ = {}
+                        for i2, (lin_, _) in enumerate(snap_lineage):
+                            mk_ = max([st_[1] for st_ in lin_ if st_[0] == "mesh"], default=0)
+                            if mk_ not in seen_ and len(set(sig)) == len(sig):
+                                s3.Set_Iter(i2)
+                                got_ = (int(s3.mesh.Nn), int(s3.mesh.Ne))
+                                seen_[mk_] = sig.index(got_) if got_ in sig else -1
+                        ms_lines.append("ms " + " ".join(f"mesh {k}" for k in range(1, len(meshes))) + " save 1 folder 2 save 3")
+                        ms_expect.append((h, kind, dict(seen_)))
                         for i2 in range(len(snaps)):
                             s3.Set_Iter(i2)
                             now = snapshot(s3, names)
@@ -413,6 +426,15 @@ def main():
             parts = [p.strip() for p in ans.split("|")]
             if len(parts) != 3 or int(parts[0]) != nsaved or "none" in parts[1]:
                 res.disagree("iteration-store", dict(history=h, sim=kind, model=ans, saved=nsaved))
+    ms_ans = driver.ask(ms_lines)
+    if ms_ans is None:
+        res.disagree("driver", "model driver does not run (mesh store): " + getattr(driver, "error", "")[:300])
+    else:
+        for (h, kind, seen_), a in zip(ms_expect, ms_ans):
+            res.traces += 1
+            model_ = a.split()
+            if a == "fail" or any(k >= len(model_) or model_[k] != str(v) for k, v in seen_.items()):
+                res.disagree("mesh-store", dict(history=h, sim=kind, model=a, read_back={str(k): v for k, v in seen_.items()}))
     res.search_note = "random save/restore histories found no iteration that comes back different from what was saved"
     res.write("seeded histories (solve with loading/unloading, Save_Iter in memory or in one of two folders, folder changes, Set_Iter, Result(iter=), Get_results, mesh replacement, "
               "Save/Load_Simu) on Elastic (dynamic), Thermal (parabolic), InElastic (von Mises plasticity) and PhaseField (three irreversibility solvers); "
